@@ -274,45 +274,73 @@ def _shard(cfg_w):
                     acc_.violation(v.clause, v.sig, wit, v.detail)
 
     kdriver.explore(cfg, observe, acc, include_invalid=False)
-    if cfg.hole_at is None and cfg.n >= 3 and cfg.init != "new":
+    if cfg.hole_at is None and cfg.n >= 3 and cfg.init != "new" and len(cfg.types) >= 3:
         hole_case(cfg, directory, acc)
     return acc
 
 
 def hole_case(cfg, directory, acc):
-    """An unused slot between two live blocks: add_block must refuse and change nothing."""
+    """Tables with an unused slot between live blocks (only other software writes those): every
+    mutation that is refused there must change nothing - add of a third kind, replace / setter / remove
+    of the block before and after the hole; hole right after the first block and right before the last
+    slot."""
     t1, t2, t3 = cfg.types[:3]
-    init = [kdriver.known_record(t1, 0), kdriver.known_record(t2, 1)]
-    hcfg = kdriver.Config(cfg.name + "-hole", cfg.n, init, cfg.types, cfg.nvar, hole_at=1)
-    base = hcfg.initial_bytes()
-    model = kdriver.Model(cfg.n, [])  # only used for labels
-    sess = kdriver.Session(hcfg, directory, data=base)
-    acc.n["evaluations"] += 1
-    acc.n["nontrivial"] += 1
-    acc.n["states"] += 1
-    wit = {"config": hcfg.to_witness(), "hole": True}
-    try:
-        before = sess.disk()
-        exc = sess.call(("add", t3, 0, 0))
-        acc.n["transitions"] += 1
-        after = sess.disk()
-        if exc is None:
-            acc.outcomes["accepted:hole"] += 1
-        elif before != after:
-            acc.violation("file-changed-by-rejected-call", f"{PROP}:file-changed:add:hole:N{cfg.n}", wit,
-                          f"add_block on a table with an unused slot between live blocks raised {type(exc).__name__} but "
-                          f"changed the file ({len(before)} -> {len(after)} bytes)")
+    layouts = []
+    for n in sorted({cfg.n, 14}):
+        if n < 3:
+            continue
+        layouts.append((n, [kdriver.known_record(t1, 0), kdriver.known_record(t2, 1)], 1, "middle"))
+        layouts.append((n, [kdriver.known_record(t1, 0), kdriver.known_record(t2, 1)], 0, "front"))
+        if n > 3:
+            # A, unused ..., B in the LAST slot: built by hand from the compact file
+            layouts.append((n, [kdriver.known_record(t1, 0), kdriver.known_record(t2, 1)], "last", "last-slot"))
+    for n, init, hole, hname in layouts:
+        hcfg = kdriver.Config(f"{cfg.name}-hole-{hname}-N{n}", n, init, cfg.types, cfg.nvar, hole_at=hole if hole != "last" else None)
+        if hole == "last":
+            data = bytearray(hcfg.initial_bytes())
+            e1 = bytes(data[R.HEADER + R.ENTRY: R.HEADER + 2 * R.ENTRY])           # entry of B
+            eu = bytes(data[R.HEADER + 2 * R.ENTRY: R.HEADER + 3 * R.ENTRY])       # an unused entry
+            data[R.HEADER + R.ENTRY: R.HEADER + 2 * R.ENTRY] = eu
+            data[R.HEADER + (n - 1) * R.ENTRY: R.HEADER + n * R.ENTRY] = e1
+            base = bytes(data)
         else:
-            mem = [m[:4] for m in sess.mem_entries()]
-            disk = [d[:4] for d in kdriver.disk_entries(R.parse_file(after))]
-            if mem != disk:
-                acc.violation("memory-table!=disk", f"{PROP}:memory-table:add:hole:N{cfg.n}", wit,
-                              f"rejected add on a table with a hole: in-memory table {mem} vs disk {disk}")
-            else:
-                acc.outcomes["rejected-clean:hole"] += 1
-                acc.n["traces"] += 1
-    finally:
-        sess.close()
+            base = hcfg.initial_bytes()
+        calls = [("add", t3, 0, 0), ("replace", t1, 1, 1), ("replace", t2, 0, 0), ("remove", t1, "type"), ("remove", t2, "type")]
+        calls += [("set", t, 1) for t in (t1, t2, t3) if t in kdriver.SETTERS]
+        for call in calls:
+            sess = kdriver.Session(hcfg, directory, data=base)
+            acc.n["evaluations"] += 1
+            acc.n["nontrivial"] += 1
+            acc.n["states"] += 1
+            wit = {"config": hcfg.to_witness(), "hole": hname, "base": base.hex(), "call": list(call)}
+            try:
+                before = sess.disk()
+                exc = sess.call(call)
+                acc.n["transitions"] += 1
+                after = sess.disk()
+                what = f"{kdriver.op_str(call)} on a {n}-slot table with an unused slot ({hname}) between live blocks"
+                if exc is None:
+                    acc.outcomes[f"accepted:hole:{call[0]}"] += 1
+                elif before != after:
+                    lost = ""
+                    try:
+                        gone = {e["type"] for e in R.parse_file(before)["entries"]} - {e["type"] for e in R.parse_file(after)["entries"]}
+                        lost = f"; lost: {[R.NAMES.get(t, t) for t in gone]}" if gone else ""
+                    except R.LayoutError:
+                        lost = "; file no longer parses"
+                    acc.violation("file-changed-by-rejected-call", f"{PROP}:file-changed:{call[0]}:hole-{hname}", wit,
+                                  f"{what} raised {type(exc).__name__} but changed the file ({len(before)} -> {len(after)} bytes){lost}")
+                else:
+                    mem = [m[:4] for m in sess.mem_entries()]
+                    disk = [d[:4] for d in kdriver.disk_entries(R.parse_file(after))]
+                    if mem != disk:
+                        acc.violation("memory-table!=disk", f"{PROP}:memory-table:{call[0]}:hole-{hname}", wit,
+                                      f"{what} raised {type(exc).__name__}: in-memory table differs from disk")
+                    else:
+                        acc.outcomes[f"rejected-clean:hole:{call[0]}"] += 1
+                        acc.n["traces"] += 1
+            finally:
+                sess.close()
 
 
 def small_configs(tier):
@@ -348,9 +376,18 @@ def replay(w):
     directory = env.scratch_dir("c07r")
     acc = core.Acc()
     if w.get("hole"):
-        base_cfg = kdriver.Config(cfg.name.replace("-hole", ""), cfg.n, [], cfg.types, cfg.nvar)
-        hole_case(base_cfg, directory, acc)
-        return core.Violation(acc.violations[0]["clause"], acc.violations[0]["sig"], w, acc.violations[0]["detail"]) if acc.violations else None
+        sess = kdriver.Session(cfg, directory, data=bytes.fromhex(w["base"]))
+        try:
+            before = sess.disk()
+            exc = sess.call(tuple(w["call"]))
+            after = sess.disk()
+            if exc is not None and before != after:
+                return core.Violation("file-changed-by-rejected-call", "replayed", w, "file changed by a rejected call")
+            if exc is not None and [m[:4] for m in sess.mem_entries()] != [d[:4] for d in kdriver.disk_entries(R.parse_file(after))]:
+                return core.Violation("memory-table!=disk", "replayed", w, "memory table differs from disk")
+        finally:
+            sess.close()
+        return None
     model = kdriver.Model(14 if cfg.init == "new" else cfg.n, [kdriver.Rec(*r) for r in specs.load(w["base_model"])])
     try:
         check_fault(cfg, directory, bytes.fromhex(w["base"]), model, tuple(w["fault"]), acc, tuple(w["second"]) if w.get("second") else None)
